@@ -24,6 +24,10 @@ QUICK_SCALE = {"C01": 4, "C02": 1, "C03": 3, "C04": 3, "C05": 3, "C06": 3, "C07"
                "C12": 4, "C13": 6, "C14": 8, "C15": 5, "C16": 6, "C17": 4, "C18": 2, "C19": 5, "C20": 8}
 
 
+THOROUGH_SCALE = {"C01": 8, "C02": 2, "C03": 3, "C04": 2, "C05": 7, "C06": 6, "C07": 9, "C08": 9, "C09": 4, "C10": 6, "C11": 12,
+                  "C12": 6, "C13": 12, "C14": 8, "C15": 20, "C16": 15, "C17": 10, "C18": 2.5, "C19": 12, "C20": 15}
+
+
 def _write_replay(prop, cell, kind, detail, info, case, sub="found"):
     d = os.path.join(VERIF_DIR, "replays", sub)
     os.makedirs(d, exist_ok=True)
@@ -105,6 +109,13 @@ def main(argv=None) -> int:
             if c.enum is None:
                 c.quick = int(c.quick * qs)
                 c.shards = (min(16, c.shards[0] * min(qs, 4)), c.shards[1])
+    # thorough tier: sized so that each property takes roughly 8-12 minutes on an idle 16-core machine
+    ts = THOROUGH_SCALE.get(prop, 1)
+    if tier == "thorough" and ts != 1:
+        for c in cells:
+            if c.enum is None:
+                c.thorough = int(c.thorough * ts)
+                c.shards = (c.shards[0], min(32, max(c.shards[1], int(c.shards[1] * min(ts, 4)))))
 
     def known(cell_name, kind, detail, case):
         for f in findings:
